@@ -126,11 +126,12 @@ def vector(d, name, target):
     return 'dotdot'
 
 
-def check_name(d, name, markers, res, case, via):
+def check_name(d, name, markers, res, case, via, l2t=None):
     from pylatexenc.latex2text import LatexNodes2Text
     res.case()
-    l2t = LatexNodes2Text()
-    l2t.set_tex_input_directory(d, strict_input=True)
+    if l2t is None:
+        l2t = LatexNodes2Text()
+        l2t.set_tex_input_directory(d, strict_input=True)
     try:
         if via == 'read_input_file':
             out = l2t.read_input_file(name)
@@ -199,6 +200,32 @@ def check_layout(layout, res):
                     vec = 'absolute' if os.path.isabs(name) else (
                         'dotdot' if '..' in comps else 'link-or-fallback')
                     res.label('vector:' + vec)
+        # history on ONE converter object: the same name is first requested with strict_input
+        # off (no claim about that result), then with strict_input on -- the strict answer must
+        # not depend on what was read before
+        from pylatexenc.latex2text import LatexNodes2Text
+        shared = LatexNodes2Text()
+        for i, (comps, absmode) in enumerate(layout['names'][:10]):
+            name = make_name(real, comps, absmode)
+            try:
+                shared.set_tex_input_directory(d, strict_input=False)
+                shared.read_input_file(name)
+                shared.latex_to_text('\\input{%s}' % name)
+                if i % 2:
+                    shared.set_tex_input_directory(d, strict_input=True)
+                else:
+                    shared.strict_input = True
+            except Exception as e:
+                res.fail(exc_key(e), exc_detail(e), {'layout': {'links': layout['links'],
+                         'dir_via_link': layout['dir_via_link'], 'names': [[list(comps), absmode]]},
+                         'via': 'history'})
+                continue
+            case = {'layout': {'links': layout['links'], 'dir_via_link': layout['dir_via_link'],
+                               'names': [[list(comps), absmode]]}, 'via': 'history',
+                    'how': 'set' if i % 2 else 'attr'}
+            check_name(d, name, markers, res, case, 'read_input_file', l2t=shared)
+            check_name(d, name, markers, res, case, 'input', l2t=shared)
+            res.label('history:strict-after-nonstrict')
         for ln in layout['links']:
             res.label('link:' + ln)
         if layout['dir_via_link']:
@@ -242,7 +269,7 @@ def plan(tier, seed):
             'required_classes': ['vector:dotdot', 'vector:absolute', 'vector:link-or-fallback',
                                  'outcome:inside-file-designated',
                                  'outcome:outside-file-designated', 'input-dir-is-a-link',
-                                 'no-directory-set'] + ['link:' + l for l in LINKS]}
+                                 'no-directory-set', 'history:strict-after-nonstrict'] + ['link:' + l for l in LINKS]}
 
 
 def run_shard(shard, res):
@@ -262,7 +289,20 @@ def check_case(case, res):
     try:
         comps, absmode = lay['names'][0]
         name = make_name(real, comps, absmode)
-        check_name(d, name, markers, res, case, case['via'])
+        if case['via'] == 'history':
+            from pylatexenc.latex2text import LatexNodes2Text
+            shared = LatexNodes2Text()
+            shared.set_tex_input_directory(d, strict_input=False)
+            shared.read_input_file(name)
+            shared.latex_to_text('\\input{%s}' % name)
+            if case.get('how') == 'set':
+                shared.set_tex_input_directory(d, strict_input=True)
+            else:
+                shared.strict_input = True
+            check_name(d, name, markers, res, case, 'read_input_file', l2t=shared)
+            check_name(d, name, markers, res, case, 'input', l2t=shared)
+        else:
+            check_name(d, name, markers, res, case, case['via'])
     finally:
         shutil.rmtree(real, ignore_errors=True)
 
